@@ -596,6 +596,7 @@ def union_oracle(prog, envB, probe_default=False, vias=("from_actions", "add", "
         return out
     stmt_of = lambda n: _first_stmt_with(envB, n)   # noqa: E731
     before = contents_of(actsB + actsC)
+    comp = _comp_keys(collect_nodes(actsB + actsC))
     one = Cascade.from_actions(actsB)
     nodes1 = _graph_nodes(one)
     bag1 = _name_bag(nodes1)
@@ -606,7 +607,7 @@ def union_oracle(prog, envB, probe_default=False, vias=("from_actions", "add", "
         out.append(({"kind": "union-not-deduplicated", "via": "from_actions"},
                      f"Cascade.from_actions over the actions of ONE build keeps {len(bag1) - len(set(bag1))} equal computations twice", every))
     # what the program denotes, computed by the harness: one node per distinct (callable, statics, inputs, outputs)
-    want = len(set(_comp_keys(collect_nodes(actsB)).values()))
+    want = len({comp[id(n)] for n in collect_nodes(actsB)})
     if not dup and len(bag1) != want:
         out.append(({"kind": "union-not-deduplicated", "via": "from_actions", "what": "count"},
                      f"Cascade.from_actions holds {len(bag1)} nodes, the actions denote {want} different computations", every))
@@ -649,8 +650,13 @@ def union_oracle(prog, envB, probe_default=False, vias=("from_actions", "add", "
     ch = changed_contents(before, after)
     # the one way in which the unchanged code is known to do this: deduplicate_nodes re-wires `node.inputs` to another node
     # object of the same name (same computation); anything else is a different matter
-    rewire_only = all(fields == ["inputs"] and [(k, pn, on) for k, _, pn, on in before[id(n)][1]["inputs"]] == [(k, pn, on) for k, _, pn, on in after[id(n)][1]["inputs"]]
-                      for n, fields in ch)
+    # (same computation: judged by the harness's own computation keys taken BEFORE the unions, not by names — de-duplication
+    # also merges equal payloads whose names differ, e.g. keyword dicts written in a different order)
+    def same_wiring(n):
+        old, new = before[id(n)][1]["inputs"], after[id(n)][1]["inputs"]
+        return len(old) == len(new) and all(ko == kn and oo == on and comp.get(po) is not None and comp.get(po) == comp.get(pn_)
+                                            for (ko, po, _, oo), (kn, pn_, _, on) in zip(old, new))
+    rewire_only = all(fields == ["inputs"] and same_wiring(n) for n, fields in ch)
     cause = {"cause": "dedup-rewire"} if ch and rewire_only else {}
     if earlier:
         via, again = earlier
